@@ -723,15 +723,13 @@ class StmtMixin:
 
     def check_inv(self, st, fr, inv, idx, phase, st_entry, extra):
         f2 = self.inv_frame(fr, st_entry, extra)
-        for j, text in enumerate(inv.inv):
-            text, tags = clause(text)
+        for j, text, tags in self.clauses(inv.inv):
             v = self.ev1(self.parse_spec(text), st, f2)
             self.oblige(st, '%s#loop[%d].%s[%d]' % (fr.prefix, idx, phase, j), truthy(v), {'text': text, 'tags': tags})
 
     def assume_inv(self, st, fr, inv, idx, st_entry, extra):
         f2 = self.inv_frame(fr, st_entry, extra)
-        for j, text in enumerate(inv.inv):
-            text = clause(text)[0]
+        for j, text, _t in self.clauses(inv.inv):
             v = self.ev1(self.parse_spec(text), st, f2)
             st.assume(asz(truthy(v)))
 
